@@ -277,8 +277,28 @@ void Interp::run(const Case &c) {
         if (op.code.size() && op.code[0] == 'f' && op.code != "fbuild" && op.code != "fmut" && op.code != "fsub" && op.code != "fsubx") continue;   // file-model ops
         if (op.code == "poke" || op.code == "dims" || op.code == "field" || op.code == "trunc" || op.code == "truncmeta" || op.code == "bytes" || op.code == "cfg" || op.code == "vendor" || op.code == "sweeptrunc" || op.code == "sweeppoke") continue;
         if (L) L->before(*this, op, i);
+        const size_t framesBefore = obj->data().nbFrames();
         Outcome out = exec(op);
         ++opsRun;
+        if (!out.threw && !out.skipped) {
+            const std::string &k = op.code;
+            if (k == "fsub" || k == "fsubx" || k == "selfsub") {
+                if (out.note.rfind("extend", 0) == 0) { size_t idx = static_cast<size_t>(atoll(out.note.c_str() + 7)); for (size_t g2 = framesBefore; g2 < idx; ++g2) gapIdx.insert(g2); }
+                if (out.note.rfind("replace", 0) == 0) {
+                    const long long idx = atoll(out.note.c_str() + 8); gapIdx.erase(static_cast<size_t>(idx));
+                    for (int s2 = 0; s2 < 4; ++s2) if (slotAlias[s2] == idx) slotAlias[s2] = -1;      // the stored frame received fresh blocks: the copy is on its own now
+                }
+            }
+            if (k == "fsub" || k == "fsubx" || k == "selfsub") {
+                // the frame just stored may itself hold no sub-frame (points only): same class as a gap frame for KF-GAPCOL
+                size_t target = framesBefore;
+                if (out.note.rfind("replace", 0) == 0) target = static_cast<size_t>(atoll(out.note.c_str() + 8));
+                else if (out.note.rfind("extend", 0) == 0) target = static_cast<size_t>(atoll(out.note.c_str() + 7));
+                if (target < obj->data().nbFrames()) { if (obj->data().frame(target).analogs().nbSubframes() == 0) gapIdx.insert(target); else gapIdx.erase(target); }
+            }
+            if (k == "load" || k == "reload" || k == "new") { gapIdx.clear(); for (int s2 = 0; s2 < 4; ++s2) slotAlias[s2] = -1; }
+            if (k == "gapfill") gapIdx.clear();
+        }
         if (trace) {
             fprintf(stderr, "  [%zu] %s", i, op.code.c_str());
             for (auto v : op.a) fprintf(stderr, " %lld", v);
@@ -318,7 +338,7 @@ Outcome Interp::exec(const Op &op) {
             const auto &ex = isP ? s.plabels : s.alabels;
             bool exists = false; for (auto &e : ex) if (rtrim(e) == base) exists = true;
             if (exists && s.nFrames == 0) { out.skipped = true; out.note = "already declared (no data): undocumented, not called"; return out; }
-            if (!isP && hasAnalogGap(*obj, s) && openFindings.count("KF-GAPCOL") && k == "decla") {
+            if (!isP && !gapIdx.empty() && hasAnalogGap(*obj, s) && openFindings.count("KF-GAPCOL") && k == "decla") {
                 excluded["KF-GAPCOL"]++; out.skipped = true; out.note = "excluded: known finding KF-GAPCOL"; return out;
             }
             out.mutating = true;
@@ -418,6 +438,38 @@ Outcome Interp::exec(const Op &op) {
             out.mutating = true;
             obj->parameter(s.group, p);
         }
+        else if (k == "preuse") {
+            // preuse <g> <n> <seed>: ONE Parameter object receives 2..5 successive accepted set() calls of changing type and overload
+            // (scalar, vector, vector with explicit shape) and is handed to the object after each of them
+            Rng r(static_cast<uint64_t>(op.arg(2)) * 0x9E3779B97F4A7C15ull + 11u);
+            const std::string grp = groupOf(op.arg(0) < 3 && op.arg(0) > -3 ? 3 + (op.arg(0) < 0 ? -op.arg(0) : op.arg(0)) : op.arg(0));   // never POINT/ANALOG/FORCE_PLATFORM
+            const std::string name = namesUpper ? upper(paramNameOf(op.arg(1))) : paramNameOf(op.arg(1));
+            ezc3d::ParametersNS::GroupNS::Parameter p(name);
+            lastReuse.clear();
+            const size_t steps = 2 + r.below(4);
+            out.mutating = true;
+            for (size_t st = 0; st < steps; ++st) {
+                ParamSpec sp; sp.group = grp; sp.name = name; sp.type = static_cast<int>(r.below(3));
+                const size_t shape = r.below(4);     // 0 scalar overload, 1 vector, 2 vector + 1 dimension, 3 vector + 2 dimensions
+                size_t n = shape == 0 ? 1 : (shape == 3 ? 0 : r.below(4));
+                if (shape == 3) { size_t a = 1 + r.below(3), b = r.below(3); sp.dims = {a, b}; n = a * b; }
+                else if (shape == 2) sp.dims = {n};
+                sp.count = n;
+                for (size_t j = 0; j < n; ++j) {
+                    if (sp.type == 0) sp.ints.push_back(static_cast<int>(r.below(2001)) - 1000);
+                    else if (sp.type == 1) { float f = static_cast<float>(static_cast<int>(r.below(4001)) - 2000) / 8.f; sp.floats.push_back(floatToBits(f)); }
+                    else sp.strs.push_back(genText(r, 1 + r.below(6)));
+                }
+                if (sp.type == 2 && shape >= 2) sp.dims.clear();     // (explicit shapes of string tables are C09's param op business)
+                if (sp.type == 0) { if (shape == 0) { if (sp.ints[0] >= 0 && r.below(2)) p.set(static_cast<size_t>(sp.ints[0])); else p.set(sp.ints[0]); } else if (sp.dims.empty()) p.set(sp.ints); else p.set(sp.ints, sp.dims); }
+                else if (sp.type == 1) { std::vector<float> v; for (uint32_t b : sp.floats) v.push_back(bitsToFloat(b));
+                    if (shape == 0) { if (r.below(2)) p.set(v[0]); else p.set(static_cast<double>(v[0])); } else if (sp.dims.empty()) p.set(v); else p.set(v, sp.dims); }
+                else { if (shape == 0) p.set(sp.strs[0]); else p.set(sp.strs); }
+                lastReuse.push_back(sp);
+                obj->parameter(grp, p);
+            }
+            out.note = grp;
+        }
         else if (k == "dimq") {
             // dimq <n> <nd> <d1..dnd>: the public helper Parameter::isDimensionConsistent(n, dims) asked directly (also with no dimension at all)
             long long n = op.arg(0) < 0 ? -op.arg(0) : op.arg(0); long long nd = (op.arg(1) < 0 ? -op.arg(1) : op.arg(1)) % 8;
@@ -489,11 +541,37 @@ Outcome Interp::exec(const Op &op) {
         else if (k == "fbuild") {
             size_t slot = static_cast<size_t>((op.arg(0) < 0 ? -op.arg(0) : op.arg(0)) % 4);
             slots[slot] = buildFrame(shapeOf(*obj), op.arg(1), static_cast<uint64_t>(op.arg(2)), out.note);
-            slotDev[slot] = out.note;
+            slotDev[slot] = out.note; slotAlias[slot] = -1;
+        }
+        else if (k == "slotcopy") {
+            // slotcopy <slot> <k>: the caller takes a copy of stored frame k (a Frame copy shares its point / analog blocks with the original)
+            size_t slot = static_cast<size_t>((op.arg(0) < 0 ? -op.arg(0) : op.arg(0)) % 4);
+            const size_t n = obj->data().nbFrames();
+            if (n == 0) { out.skipped = true; out.note = "no stored frame"; return out; }
+            const size_t src = static_cast<size_t>(op.arg(1) < 0 ? -op.arg(1) : op.arg(1)) % n;
+            const ezc3d::DataNS::Frame &stored = obj->data().frame(src);
+            { Shape s = shapeOf(*obj);
+              bool shapeOk = stored.points().nbPoints() == s.nP && stored.analogs().nbSubframes() == (s.nC ? s.nSub : 0);
+              if (!shapeOk) { out.skipped = true; out.note = "stored frame does not carry the declared shape (gap frame)"; return out; } }
+            slots[slot] = stored; slotDev[slot] = "match"; slotAlias[slot] = static_cast<long long>(src);
+            out.note = "copy-of " + std::to_string(src);
+        }
+        else if (k == "refill") {
+            // refill <slot> <dev> <seed>: the caller reuses ONE Frame object (README style): new content is put into it with add(); whatever it
+            // shared before (another slot's blocks, a stored frame's blocks) must stay as it was
+            size_t slot = static_cast<size_t>((op.arg(0) < 0 ? -op.arg(0) : op.arg(0)) % 4);
+            ezc3d::DataNS::Frame F = buildFrame(shapeOf(*obj), op.arg(1), static_cast<uint64_t>(op.arg(2)), out.note);
+            const uint64_t how = static_cast<uint64_t>(op.arg(2) < 0 ? -op.arg(2) : op.arg(2)) % 3;
+            if (how == 0) slots[slot].add(F.points(), F.analogs());
+            else if (how == 1) slots[slot].add(F);
+            else { slots[slot].add(F.points()); slots[slot].add(F.analogs()); }
+            slotDev[slot] = out.note; slotAlias[slot] = -1;
+            out.note += how == 0 ? "|add(points,analogs)" : (how == 1 ? "|add(frame)" : "|add(points);add(analogs)");
         }
         else if (k == "fmut") {
             size_t slot = static_cast<size_t>((op.arg(0) < 0 ? -op.arg(0) : op.arg(0)) % 4);
             long long how = (op.arg(1) < 0 ? -op.arg(1) : op.arg(1)) % 5;
+            if (slotAlias[slot] >= 0 && how != 3) { out.skipped = true; out.note = "the slot is a copy of a stored frame and shares its blocks (shallow by design): not edited in place"; return out; }
             Rng r(static_cast<uint64_t>(op.arg(2)));
             ezc3d::DataNS::Frame &f = slots[slot];
             if (how == 1 || how == 3 || how == 4) slotDev[slot] += "|mut:shape";
@@ -515,6 +593,7 @@ Outcome Interp::exec(const Op &op) {
             long long kind = (op.arg(1) < 0 ? -op.arg(1) : op.arg(1)) % 3;
             size_t src = static_cast<size_t>(op.arg(2) < 0 ? -op.arg(2) : op.arg(2)), kk = static_cast<size_t>(op.arg(3) < 0 ? -op.arg(3) : op.arg(3)) % 40;
             ezc3d::DataNS::Frame &f = slots[slot];
+            if (slotAlias[slot] >= 0) { out.skipped = true; out.note = "the slot is a copy of a stored frame and shares its blocks (shallow by design): not edited in place"; return out; }
             if (kind == 0) {
                 auto &P = f.points_nonConst(); const size_t n = P.nbPoints();
                 if (n == 0) { out.skipped = true; out.note = "no point"; return out; }
@@ -612,7 +691,7 @@ Outcome Interp::exec(const Op &op) {
             // acol additionally: 9 sub-1, 10 sub+1
             const bool isP = k == "pcol";
             Shape s = shapeOf(*obj);
-            if (!isP && hasAnalogGap(*obj, s) && openFindings.count("KF-GAPCOL") && k == "acol") {
+            if (!isP && !gapIdx.empty() && hasAnalogGap(*obj, s) && openFindings.count("KF-GAPCOL") && k == "acol") {
                 excluded["KF-GAPCOL"]++; out.skipped = true; out.note = "excluded: known finding KF-GAPCOL (channel column on a data set with empty gap frames)"; return out;
             }
             long long nb = op.arg(0) < 0 ? -op.arg(0) : op.arg(0);
